@@ -137,7 +137,9 @@ def any_point_in_triangle(triangle, points):
         mtrx = mtrx[:2]
     for point in points:
         ps, pt = np.dot(mtrx, point - a)
-        if ps >= 0 and pt >= 0 and ps + pt <= 1:
+        # Closed test with a small (dimensionless, barycentric) tolerance, so that a
+        # vertex lying on the triangle's boundary blocks the ear whatever the rounding.
+        if ps >= -1E-9 and pt >= -1E-9 and ps + pt <= 1 + 1E-9:
             return True
     return False
 
